@@ -260,9 +260,19 @@ def stubsOf : List (Nat × Nat) → List Nat
 def bumpDeg (k : List (Nat × Nat)) (bump : List Nat) : List (Nat × Nat) :=
   k.map (fun p => if p.1 ∈ bump then (p.1, p.2 + 1) else p)
 
+/-- insert into a descending list -/
+def insDesc (a : Nat) : List Nat → List Nat
+  | [] => [a]
+  | b :: l => if b ≤ a then a :: b :: l else b :: insDesc a l
+
+/-- `sorted(u, reverse=True)` (insertion sort, structurally recursive so that it evaluates in proofs) -/
+def sortDesc : List Nat → List Nat
+  | [] => []
+  | a :: l => insDesc a (sortDesc l)
+
 /-- `for index in sorted(u, reverse=True): del stubs[index]` -/
 def delStubs (stubs : List Nat) (u : List Nat) : List Nat :=
-  (u.mergeSort (fun a b => decide (b ≤ a))).foldl (fun s i => s.eraseIdx i) stubs
+  (sortDesc u).foldl (fun s i => s.eraseIdx i) stubs
 
 /-- a legal result of `random.sample(range(len), m)` -/
 def validChoice (len m : Nat) (u : List Nat) : Bool :=
